@@ -8,7 +8,7 @@ from metapype.model.node import Node
 from metapype.eml import rule as rulemod, validate
 
 TRUSTED = ["CPython float/int/strptime/time.fromisoformat and rfc3986 are modelled only on the canonical and the malformed class; lenient spellings are unspecified",
-           "IEEE rounding is not modelled: decimals within 1e-9 (relative) of a range bound are unspecified",
+           "IEEE rounding is not modelled: decimals within 1e-14 (relative) of a range bound are unspecified (beyond that a correctly rounded double decides exactly as the decimal does)",
            "labels of the generated pools are by construction from the canonical grammars of DESIGN.md C02"]
 TYPED = ["floatContent", "floatRangeContent_EW", "floatRangeContent_NS", "floatContent_Nonnegative", "intContent", "timeContent", "uriContent", "yearDateContent"]
 A, R = "accept", "reject"
@@ -79,6 +79,10 @@ def pool(kind, rng, n):
         over = [f"{b}.0001", f"{b}.1", f"{b + 1}", f"{b}0", f"{b}e1", f"{b}.000001", "1e3", "1e400", "9999999999999999999999", f"{b // 10}.{b % 10 if b % 10 else '0'}1e1", "1000"]
         for s in over:
             out += [(s, R), ("-" + s, R)]
+        # the boundary ladder: strictly outside by 10^-k (decided exactly by a double down to about 1e-13), strictly inside by 10^-k
+        for k in range(1, 12):
+            s = f"{b}." + "0" * (k - 1) + "1"
+            out += [(s, R), ("-" + s, R), (f"{b - 1}." + "9" * k, A), (f"-{b - 1}." + "9" * k, A)]
         out += [(dec_in(rng, b + 1, b + 1000), R) for _ in range(n // 3)] + [(dec_in(rng, -b - 1000, -b - 1), R) for _ in range(n // 3)]
         out += [(x, R) for x in ["nan", "NaN", "-nan", "inf", "-inf", "+Infinity", "infinity", "", ".", "abc", "1e", "12,5", "N", "E", "180W", "90N", "12°"][:-1]]
         out += [(junk(rng), R) for _ in range(n // 3)]
